@@ -3,6 +3,7 @@ package consim
 import (
 	"bytes"
 	"fmt"
+	"os"
 	"sort"
 	"time"
 
@@ -44,6 +45,7 @@ type sim struct {
 	maxRound     int32
 	txSeq        int
 	tried        map[string]string // (receiver,item) -> receiver state stamp at last delivery
+	claimed      map[string]string // (receiver incarnation, holder>receiver, h/r/type) -> block id of the majority claim made
 	armed        map[int]simcore.Op
 	targetH      int64
 	idleSteps    int
@@ -51,6 +53,9 @@ type sim struct {
 	refused      map[int]map[int64]bool
 	dir          *forkDirector
 	wrng         *simcore.RNG
+	lastHRS      string
+	lastSkipped  []string
+	lastHRSAt    time.Time
 
 	mon *monitor
 }
@@ -163,7 +168,8 @@ func baseConfig(rng *simcore.RNG, env *simcore.Env) simcore.Op {
 	c["hash_len"] = []int{1, 8, 20, 32}[rng.Intn(4)]
 	c["mempool"] = []string{"v0", "v1"}[rng.Intn(2)]
 	c["skip_timeout_commit"] = nv > 1 && rng.Bool(0.5)
-	c["real_ticker"] = false
+	// the shipped consensus/ticker.go on the fake clock instead of the simulator's ticker
+	c["real_ticker"] = (prop == "C03" && rng.Bool(0.4)) || (prop != "C03" && rng.Bool(0.1))
 	c["heights"] = rng.Range(2, 5)
 	c["nops"] = rng.Range(150, 700)
 	if env.Thorough() {
@@ -205,7 +211,7 @@ func baseConfig(rng *simcore.RNG, env *simcore.Env) simcore.Op {
 // ---------------------------------------------------------------- construction
 
 func newSim(env *simcore.Env, cfg simcore.Op) simcore.Sim {
-	s := &sim{env: env, cfg: cfg, chainID: "consim-chain", tried: map[string]string{}, armed: map[int]simcore.Op{}}
+	s := &sim{env: env, cfg: cfg, chainID: "consim-chain", tried: map[string]string{}, claimed: map[string]string{}, armed: map[int]simcore.Op{}}
 	s.nVals = cfg.Int("nvals")
 	for _, p := range cfg.Ints("powers") {
 		s.powers = append(s.powers, int64(p))
@@ -450,6 +456,7 @@ func voteSetOf(rs *cstypes.RoundState, r int32, typ int) *types.VoteSet {
 // live, correct nodes right now (state-based gossip).
 func (s *sim) deliverables() []item {
 	var out []item
+	s.lastSkipped = s.lastSkipped[:0]
 	live := s.alive()
 	rss := map[int]*cstypes.RoundState{}
 	for _, n := range live {
@@ -468,6 +475,7 @@ func (s *sim) deliverables() []item {
 			st := fmt.Sprintf("%d:%s", b.inc, stamp(rb))
 			add := func(it item) {
 				if s.tried[it.key()] == st {
+					s.lastSkipped = append(s.lastSkipped, it.key())
 					return
 				}
 				out = append(out, it)
@@ -512,12 +520,30 @@ func (s *sim) deliverables() []item {
 							continue
 						}
 						vb := voteSetOf(rb, r, typ)
+						// majority claim (reactor: queryMaj23Routine / VoteSetMaj23): lets the
+						// receiver count votes for that block that conflict with ones it already holds
+						maj, hasMaj := va.TwoThirdsMajority()
+						claimed := hasMaj && s.claimed[fmt.Sprintf("%d/%d>%d/%d/%d/%d", b.inc, a.idx, b.idx, ra.Height, r, typ)] == bidStr(maj)
+						if hasMaj && vb != nil && !claimed {
+							add(item{kind: "maj23", from: a.idx, to: b.idx, h: ra.Height, r: r, typ: typ})
+						}
+						var byBlock interface{ GetIndex(int) bool }
+						if claimed && vb != nil {
+							if ba := vb.BitArrayByBlockID(maj); ba != nil {
+								byBlock = ba
+							}
+						}
 						for v := 0; v < ra.Validators.Size(); v++ {
-							if va.GetByIndex(int32(v)) == nil {
+							vote := va.GetByIndex(int32(v))
+							if vote == nil {
 								continue
 							}
 							if vb != nil && vb.GetByIndex(int32(v)) != nil {
-								continue
+								// the receiver holds a vote of this validator; after a majority claim a
+								// vote for the claimed block that it does not count yet is still wanted
+								if !(claimed && vote.BlockID.Equals(maj) && (byBlock == nil || !byBlock.GetIndex(v))) {
+									continue
+								}
 							}
 							add(item{kind: "vote", from: a.idx, to: b.idx, h: ra.Height, r: r, typ: typ, val: v})
 						}
@@ -526,14 +552,32 @@ func (s *sim) deliverables() []item {
 			case rb.Height < ra.Height:
 				// catch-up: commit precommits and block parts of the receiver's height
 				commit := s.commitFor(a, ra, rb.Height)
+				if debugLog {
+					fmt.Fprintf(os.Stderr, "CATCHUP %d->%d h=%d commit=%v lastcommit=%v\n", a.idx, b.idx, rb.Height, commit != nil, ra.LastCommit != nil)
+					if commit != nil {
+						fmt.Fprintf(os.Stderr, "   round=%d sigs=%v vb=%v\n", commit.Round, commit.BitArray(), voteSetOf(rb, commit.Round, 2) != nil)
+					}
+				}
 				if commit != nil {
 					vb := voteSetOf(rb, commit.Round, 2)
+					claimed := s.claimed[fmt.Sprintf("%d/%d>%d/%d/%d/%d", b.inc, a.idx, b.idx, rb.Height, commit.Round, 2)] == bidStr(commit.BlockID)
+					if vb != nil && !claimed {
+						add(item{kind: "cmaj23", from: a.idx, to: b.idx, h: rb.Height, r: commit.Round, typ: 2})
+					}
+					var byBlock interface{ GetIndex(int) bool }
+					if claimed && vb != nil {
+						if ba := vb.BitArrayByBlockID(commit.BlockID); ba != nil {
+							byBlock = ba
+						}
+					}
 					for v, sig := range commit.Signatures {
 						if sig.Absent() {
 							continue
 						}
 						if vb != nil && vb.GetByIndex(int32(v)) != nil {
-							continue
+							if !(claimed && sig.ForBlock() && (byBlock == nil || !byBlock.GetIndex(v))) {
+								continue
+							}
 						}
 						add(item{kind: "cvote", from: a.idx, to: b.idx, h: rb.Height, r: commit.Round, typ: 2, val: v})
 					}
@@ -621,6 +665,36 @@ func (s *sim) deliver(it item) bool {
 		}
 		s.mon.onDeliverVote(b, v)
 		s.with(b, func() { b.cs.AddVote(v.Copy(), a.peer) })
+	case "maj23", "cmaj23":
+		var bid types.BlockID
+		if it.kind == "maj23" {
+			if ra.Height != it.h {
+				return false
+			}
+			vs := voteSetOf(ra, it.r, it.typ)
+			if vs == nil {
+				return false
+			}
+			m, ok := vs.TwoThirdsMajority()
+			if !ok {
+				return false
+			}
+			bid = m
+		} else {
+			commit := s.commitFor(a, ra, it.h)
+			if commit == nil || commit.Round != it.r {
+				return false
+			}
+			bid = commit.BlockID
+		}
+		typ := tmproto.PrevoteType
+		if it.typ == 2 {
+			typ = tmproto.PrecommitType
+		}
+		if err := rb.Votes.SetPeerMaj23(it.r, typ, a.peer, bid); err != nil {
+			s.env.Count("probe.maj23_claim_refused")
+		}
+		s.claimed[fmt.Sprintf("%d/%d>%d/%d/%d/%d", b.inc, a.idx, b.idx, it.h, it.r, it.typ)] = bidStr(bid)
 	case "cvote":
 		commit := s.commitFor(a, ra, it.h)
 		if commit == nil || it.val >= len(commit.Signatures) || commit.Signatures[it.val].Absent() {
@@ -762,6 +836,10 @@ func (s *sim) Next(rng *simcore.RNG) simcore.Op {
 			return bop
 		}
 	}
+	if s.cfg.Bool("real_ticker") && (len(items) == 0 || rng.Intn(100) < s.cfg.Int("timeout_rate")) {
+		// time is the only thing that fires the shipped ticker
+		return simcore.Op{"a": "sleep", "ms": []int{1, 20, 100, 250, 600}[rng.Intn(5)]}
+	}
 	fireTimeout := len(pend) > 0 && (len(items) == 0 || rng.Intn(100) < s.cfg.Int("timeout_rate"))
 	if fireTimeout {
 		n := pend[rng.Intn(len(pend))]
@@ -836,12 +914,25 @@ func (s *sim) apply(op simcore.Op) bool {
 	case "sleep":
 		time.Sleep(time.Duration(op.Int("ms")) * time.Millisecond)
 		s.env.Settle()
+		for _, n := range s.nodes {
+			if n.cs != nil && n.isAlive() {
+				n.cs.VerifDrainStats()
+			}
+		}
 		s.afterStimulus(nil)
+		s.env.Count("op.sleep")
 		return true
 	case "tx":
 		n := s.nodeOf(op)
 		if n == nil || !n.isAlive() {
 			return false
+		}
+		// mempool v1 orders equal-priority transactions by arrival timestamp: keep them distinct
+		time.Sleep(time.Millisecond)
+		s.env.Settle()
+		s.afterStimulus(nil)
+		if !n.isAlive() {
+			return true
 		}
 		s.driverInNode = true
 		s.cur = n
